@@ -68,66 +68,45 @@ Print Assumptions C19_young_if_few_calls.
 (* Frames.  [parse_notify f] (Model/PingFrame.v) is what Session.Parse does with the frame f as
    far as the waiter table is concerned: Ok (Some i) = echoNotify(i) is called, Ok None = it is
    not.  [rfc_reply_id f] (Spec/PingRFC.v) is the RFC reading: f is an echo reply carrying
-   identifier i.  (Model and classes follow /repo 38ef1da, which made IP4.IsValid reject IHL < 20
-   and TotalLength < IHL.)  They agree on every frame of at most 65535 bytes outside four recorded
-   defect classes (each refuted by a witness that is replayed on the real code by harness variants
-   hdr4/hdr6, fam4/fam6, tl4, pl6; keys echo_reply_bad_ip_header, echo_reply_wrong_icmp_family,
-   echo_reply_beyond_ip4_totallen, echo_reply_beyond_ip6_payloadlen in known_findings.txt). *)
-Theorem C19_frame_agree_partial : forall f, bytes_ok f -> N.of_nat (List.length f) <= 65535 ->
-  known_C19_frame f = false -> parse_notify f = Ok (rfc_reply_id f).
+   identifier i.  Since the repairs in /repo (IP4.IsValid 38ef1da, IP6.IsValid 28b2fc9, and the
+   three guards on echoNotify in Session.Parse made by this cluster) they agree on EVERY frame:
+   any bytes, any length, no recorded class left; in particular Parse never panics on this path. *)
+Theorem C19_frame_agree : forall f, parse_notify f = Ok (rfc_reply_id f).
 Proof. exact frame_agree. Qed.
-Print Assumptions C19_frame_agree_partial.
-
-Theorem C19_frame_agree_refuted_iphdr :
-  bytes_okb w_iphdr = true /\ known_C19_iphdr w_iphdr = true /\
-  parse_notify w_iphdr = Ok (Some 7) /\ rfc_reply_id w_iphdr = None.
-Proof. exact frame_agree_refuted_iphdr. Qed.
-Print Assumptions C19_frame_agree_refuted_iphdr.
-
-Theorem C19_frame_agree_refuted_family :
-  bytes_okb w_family = true /\ known_C19_iphdr w_family = false /\ known_C19_family w_family = true /\
-  parse_notify w_family = Ok (Some 7) /\ rfc_reply_id w_family = None.
-Proof. exact frame_agree_refuted_family. Qed.
-Print Assumptions C19_frame_agree_refuted_family.
-
-Theorem C19_frame_agree_refuted_totallen :
-  bytes_okb w_totallen = true /\ known_C19_iphdr w_totallen = false /\ known_C19_family w_totallen = false /\
-  known_C19_totallen w_totallen = true /\
-  parse_notify w_totallen = Ok (Some 7) /\ rfc_reply_id w_totallen = None.
-Proof. exact frame_agree_refuted_totallen. Qed.
-Print Assumptions C19_frame_agree_refuted_totallen.
-
-Theorem C19_frame_agree_refuted_paylen :
-  bytes_okb w_paylen = true /\ known_C19_iphdr w_paylen = false /\ known_C19_family w_paylen = false /\
-  known_C19_totallen w_paylen = false /\ known_C19_paylen w_paylen = true /\
-  parse_notify w_paylen = Ok (Some 7) /\ rfc_reply_id w_paylen = None.
-Proof. exact frame_agree_refuted_paylen. Qed.
-Print Assumptions C19_frame_agree_refuted_paylen.
+Print Assumptions C19_frame_agree.
 
 (* Echo requests never reach echoNotify. *)
-Theorem C19_request_silent_partial : forall f j, bytes_ok f -> N.of_nat (List.length f) <= 65535 ->
-  known_C19_frame f = false -> rfc_request_id f = Some j -> parse_notify f = Ok None.
+Theorem C19_request_silent : forall f j, rfc_request_id f = Some j -> parse_notify f = Ok None.
 Proof. exact frame_request_silent. Qed.
-Print Assumptions C19_request_silent_partial.
+Print Assumptions C19_request_silent.
+
+(* one frame of each class that used to complete a ping (former findings echo_reply_bad_ip_header,
+   echo_reply_wrong_icmp_family, echo_reply_beyond_ip4_totallen, echo_reply_beyond_ip6_payloadlen)
+   is now silent; well-formed frames behave *)
+Example C19_closed_classes :
+  was_C19_iphdr w_iphdr = true /\ parse_notify w_iphdr = Ok None /\
+  was_C19_family w_family = true /\ parse_notify w_family = Ok None /\
+  was_C19_totallen w_totallen = true /\ parse_notify w_totallen = Ok None /\
+  was_C19_paylen w_paylen = true /\ parse_notify w_paylen = Ok None.
+Proof. exact closed_classes. Qed.
+Print Assumptions C19_closed_classes.
 
 Example C19_frame_nonvacuous :
-  bytes_okb w_reply6 = true /\ known_C19_frame w_reply6 = false /\ parse_notify w_reply6 = Ok (Some 7) /\
-  bytes_okb w_request4 = true /\ known_C19_frame w_request4 = false /\ rfc_request_id w_request4 = Some 7 /\
-  parse_notify w_request4 = Ok None.
+  parse_notify w_reply6 = Ok (Some 7) /\ rfc_reply_id w_reply6 = Some 7 /\
+  rfc_request_id w_request4 = Some 7 /\ parse_notify w_request4 = Ok None.
 Proof. exact frame_agree_nonvacuous. Qed.
 Print Assumptions C19_frame_nonvacuous.
 
-(* C19_foreign.  A call in whose window every event is either a parsed frame that is NOT an echo
-   reply for the call's own identifier (reply with another id, echo request, malformed or
-   non-ICMP frame; outside the recorded classes), or no notification at all (timers, Begin/End of
-   other calls), returns ErrTimeout. *)
+(* C19_foreign (partial: under [young]).  A call in whose window every event is either a parsed
+   frame that is NOT an echo reply for the call's own identifier (reply with another id, echo
+   request, malformed or non-ICMP frame), or no notification at all (timers, events of other
+   calls), returns ErrTimeout. *)
 Theorem C19_foreign_partial : forall fx n pre p mid post s,
   n < 65536 ->
   run fx (init n) (pre ++ Begin p :: mid ++ End p :: post) = Ok s ->
   always fx young (init n) (pre ++ Begin p :: mid ++ End p :: post) ->
   (forall e, In e mid ->
-     (exists f, e = frame_event f /\ bytes_ok f /\ N.of_nat (List.length f) <= 65535 /\
-                known_C19_frame f = false /\ rfc_reply_id f <> id_of s p)
+     (exists f, e = frame_event f /\ rfc_reply_id f <> id_of s p)
      \/ (forall j, e <> Notify j)) ->
   result_of s p = Some RTimeout.
 Proof. exact ping_foreign. Qed.
